@@ -291,6 +291,17 @@ def run(tier, seed, prefix='C18', want=('TF', 'SS'), pack=None):
         from contracts.packutil import run_contracts
         run_contracts(pack, [(dummy_value('C18'), None, replay_dummy_value)])
         gain_limiter_at_limits(pack, 'C18')
+        # the time constant T of a block is what the integrator uses: dae.Tf is filled after the models' services exist
+        from contracts import fn_sequence as Q
+        run_contracts(pack, [(Q.system_init('C18'), None, Q.replay_store_tf), (Q.store_tf('C18'), None, Q.replay_store_tf)])
+        from contracts.packutil import native_guard
+        tname = 'C18/andes/system.py:System.init;_store_tf/bounded:dae.Tf-holds-the-declared-time-constant-of-every-state,also-when-it-is-a-constant-service'
+        r = native_guard(pack, tname, Q.replay_store_tf)
+        if r is not None:
+            pack.bounded.append({'function': 'System.init / _store_tf (end to end)', 'cases': r.get('tried', 0), 'counted_as_proved': False,
+                                 'kind': 'bounded native: kundur_full, ieee14_full, kundur_wtdta1 (time constants that are constant services)'})
+            if r.get('confirmed'):
+                pack.violation(tname, {'bounded': True, 'inputs': r.get('inputs'), 'observed': r.get('observed'), 'native_cmd': r.get('native_cmd')})
         return pack.finish()
     return pack
 
